@@ -114,6 +114,10 @@ var statusName = map[state.CheckpointStatus]string{state.Growing: "G", state.Unj
 
 func linkKey(l link) string { return fmt.Sprintf("%d:%d>%d", l.V, l.S, l.T) }
 
+// watchdog for calls of the real node that must return; a first expiry is confirmed by re-running the
+// scenario alone with a six times longer watchdog (a loaded machine must not turn into a verdict)
+var watchdog = 30 * time.Second
+
 func replay(steps []step, n, me int) *divergence {
 	if me >= n {
 		me = -1 // the node's key is not a validator
@@ -134,7 +138,8 @@ func replay(steps []step, n, me int) *divergence {
 		arrived <- h
 		<-release
 	}
-	env, err := node.Open(memkv.New())
+	kv := memkv.New()
+	env, err := node.Open(kv)
 	if err != nil {
 		vh.Fatal("cannot open a fresh node: %v", err)
 	}
@@ -144,6 +149,24 @@ func replay(steps []step, n, me int) *divergence {
 		vh.Fatal("subscribe: %v", err)
 	}
 	w := node.NewWorld(env)
+	var restartErr string
+	restart := func() { // the process stops between two calls and starts again on the stored records
+		defer func() {
+			if p := recover(); p != nil {
+				restartErr = fmt.Sprint("panic: ", p)
+			}
+		}()
+		kv = kv.Clone()
+		e2, err := node.Open(kv)
+		if err != nil {
+			restartErr = err.Error()
+			return
+		}
+		env = e2
+		w.Env = e2
+		cs = e2.Chain.VerifCasper()
+		sub, _ = e2.Disp.Subscribe(casper.ValidCasperSignMsg{})
+	}
 	votes := map[int]*vote{}
 	carried := map[int][]int{}
 	pending := 0 // loop iterations known to wait at the gate
@@ -211,9 +234,9 @@ func replay(steps []step, n, me int) *divergence {
 				v := votes[vid]
 				links.AddSupLink(w.Blocks[v.s].Height, w.Blocks[v.s].Hash(), v.msg.Signature, v.v)
 			}
-			orphan, perr, blocked := w.Process(node.CopyBlock(w.Blocks[c.B], links), 15*time.Second)
+			orphan, perr, blocked := w.Process(node.CopyBlock(w.Blocks[c.B], links), watchdog)
 			if blocked {
-				return &divergence{i, "C12", "blocked", fmt.Sprintf("ProcessBlock(block %d) did not return within 15s", c.B)}
+				return &divergence{i, "C12", "blocked", fmt.Sprintf("ProcessBlock(block %d) did not return within %s", c.B, watchdog)}
 			}
 			if (perr != nil) != c.Err || (perr == nil && orphan != c.Orphan) {
 				return &divergence{i, "C12", "ret", fmt.Sprintf("ProcessBlock(block %d) returned (orphan=%v, err=%v), specification says (orphan=%v, err=%v)", c.B, orphan, perr, c.Orphan, c.Err)}
@@ -232,8 +255,8 @@ func replay(steps []step, n, me int) *divergence {
 			}()
 			select {
 			case <-done:
-			case <-time.After(15 * time.Second):
-				return &divergence{i, "C37", "vote-blocked", fmt.Sprintf("ProcessBlockVerification(vote %d: validator %d, %d->%d) did not return within 15s", c.I, v.v, v.s, v.t)}
+			case <-time.After(watchdog):
+				return &divergence{i, "C37", "vote-blocked", fmt.Sprintf("ProcessBlockVerification(vote %d: validator %d, %d->%d) did not return within %s", c.I, v.v, v.s, v.t, watchdog)}
 			}
 			what = fmt.Sprintf("ProcessBlockVerification(validator %d, %d->%d, sig ok=%v)", v.v, v.s, v.t, v.ok)
 			if pan != nil {
@@ -246,6 +269,14 @@ func replay(steps []step, n, me int) *divergence {
 			if c.R != "stale" && (perr != nil) != c.Err {
 				return &divergence{i, "C18", "vote-ret:" + c.R, fmt.Sprintf("%s returned err=%v, specification says %s (err=%v)", what, perr, c.R, c.Err)}
 			}
+		case "restart":
+			drainPosted()
+			restart()
+			if restartErr != "" {
+				return &divergence{i, "C19", "restart-fails", "clean restart between two calls: the node does not start from the stored state: " + restartErr}
+			}
+			pending = 0
+			what = "a clean restart"
 		case "tick":
 			if pending == 0 {
 				select {
@@ -410,6 +441,10 @@ func loadCase(path string, want int) []step {
 
 func main() {
 	vh.Quiet()
+	if len(os.Args) > 1 && os.Args[1] == "probe17" {
+		probe17()
+		return
+	}
 	if ok, i, n, from, only, args := vh.IsWorker(); ok {
 		nv, _ := strconv.Atoi(args[1])
 		me, _ := strconv.Atoi(args[2])
@@ -419,6 +454,7 @@ func main() {
 		}
 		crashMode := len(args) > 4 && args[4] == "crash"
 		inconclusive := 0
+		slow := 0
 		points := 0
 		cases, calls := 0, 0
 		shapes := map[string]bool{}
@@ -458,6 +494,9 @@ func main() {
 					sh += fmt.Sprintf("c%d.%d,", s.Call.B, s.Call.Vote)
 				case "tick":
 					sh += "t,"
+				case "restart":
+					sh += "R,"
+					calls++
 				}
 			}
 			shapes[sh] = true
@@ -473,6 +512,15 @@ func main() {
 				return nil
 			}
 			dv := replay(st, nv, me)
+			if dv != nil && (strings.Contains(dv.What, "blocked") || strings.Contains(dv.What, "stuck")) {
+				watchdog *= 6
+				dv2 := replay(st, nv, me)
+				watchdog /= 6
+				if dv2 == nil || !(strings.Contains(dv2.What, "blocked") || strings.Contains(dv2.What, "stuck")) {
+					slow++ // the call returned when given more time: load, not a verdict
+					dv = dv2
+				}
+			}
 			if dv != nil && dv.What != "justified-from-unjustified-source" && len(st) > 0 && st[len(st)-1].Obs != nil && len(st[len(st)-1].Obs.Devs) > 0 {
 				// the path passes through the recorded deviation (justification from an unjustified source): a node that
 				// does not follow the code-mirroring specification there cannot be judged against it
@@ -490,7 +538,7 @@ func main() {
 		if err != nil {
 			vh.Fatal("worker: %v", err)
 		}
-		vh.Summary(map[string]interface{}{"partial": true, "cases": cases, "calls": calls, "distinct": len(shapes), "crash_points": points, "inconclusive_after_deviation": inconclusive})
+		vh.Summary(map[string]interface{}{"partial": true, "cases": cases, "calls": calls, "distinct": len(shapes), "crash_points": points, "inconclusive_after_deviation": inconclusive, "slow_calls_not_confirmed_as_blocked": slow})
 		return
 	}
 	mode := "replay"
